@@ -329,4 +329,5 @@ class DetectorConvergenceCondition(StoppingCondition):
             operand=None,
         )
 
-        return (~min_steps_condition) | (time_condition & (~converged))
+        # hard cutoff at max_steps (documented), regardless of min_steps and convergence
+        return (curr_time_step < self.max_steps) & ((~min_steps_condition) | (time_condition & (~converged)))
